@@ -126,3 +126,67 @@ def inv_region(c):
 def wf_static(c):
     """The R-free structural invariants lookups rely on."""
     return z3.And(wf_wiring(c), wf_lit_owner(c), wf_members(c), wf_typed(c))
+
+
+# ------------------------------------------------------------------------------------------------ upper levels
+def section_of_block(c, n):
+    return c.get("_section", ref(c.get("_byte_interval", n)))
+
+
+def wf_upper(c):
+    """module <-> section and IR <-> module relations (both directions), as far as lookups need them.
+    IR.modules is a list without repetitions; $modpos is the (ghost) position of an attached module."""
+    m = fresh("m", Int)
+    s = fresh("s", Int)
+    ir = fresh("ir", Int)
+    v = fresh("v", Val)
+    i = fresh("i", Int)
+    j = fresh("j", Int)
+    w_m = c.get("sections", m)
+    ml = c.get("modules", ir)
+    items = z3.Select(c.arr("ListWrapper._data#items"), ref(ml))
+    n = z3.Select(c.arr("ListWrapper._data#len"), ref(ml))
+    pm = c.get("_module", s)
+    pi = c.get("_ir", m)
+    pos = z3.Select(c.arr("$modpos"), m)
+    ml2 = c.get("modules", ref(pi))
+    items2 = z3.Select(c.arr("ListWrapper._data#items"), ref(ml2))
+    n2 = z3.Select(c.arr("ListWrapper._data#len"), ref(ml2))
+    return z3.And(
+        z3.ForAll([m], z3.Implies(c.isinst(m, "Module"), z3.And(
+            is_VRef(w_m), kind_is(c, ref(w_m), "Module._NodeSet"), c.get("_node", ref(w_m)) == VRef(m),
+            z3.Or(is_VNone(pi), z3.And(is_VRef(pi), c.isinst(ref(pi), "IR")))))),
+        z3.ForAll([m, v], z3.Implies(z3.And(c.isinst(m, "Module"), z3.Select(data(c, w_m), v)),
+                                     z3.And(is_VRef(v), c.isinst(ref(v), "Section"),
+                                            c.get("_module", ref(v)) == VRef(m)))),
+        z3.ForAll([s], z3.Implies(c.isinst(s, "Section"),
+                                  z3.Or(is_VNone(pm), z3.And(is_VRef(pm), c.isinst(ref(pm), "Module"),
+                                                             z3.Select(data(c, c.get("sections", ref(pm))), VRef(s)))))),
+        z3.ForAll([ir], z3.Implies(c.isinst(ir, "IR"), z3.And(
+            is_VRef(ml), kind_is(c, ref(ml), "IR._ModuleList"), n >= 0))),
+        z3.ForAll([ir, i], z3.Implies(z3.And(c.isinst(ir, "IR"), 0 <= i, i < n),
+                                      z3.And(is_VRef(z3.Select(items, i)), c.isinst(ref(z3.Select(items, i)), "Module"),
+                                             c.get("_ir", ref(z3.Select(items, i))) == VRef(ir)))),
+        z3.ForAll([ir, i, j], z3.Implies(z3.And(c.isinst(ir, "IR"), 0 <= i, i < j, j < n),
+                                         z3.Select(items, i) != z3.Select(items, j))),
+        z3.ForAll([m], z3.Implies(z3.And(c.isinst(m, "Module"), is_VRef(pi)),
+                                  z3.And(0 <= pos, pos < n2, z3.Select(items2, pos) == VRef(m)))),
+    )
+
+
+def in_scope(c, level, node_kind, n, owner):
+    """n (a block or an interval) is contained in owner (a section, module or IR) per the parent chain"""
+    if node_kind == "block":
+        bi = c.get("_byte_interval", n)
+        sec = c.get("_section", ref(bi))
+        base = z3.And(c.isinst(n, "ByteBlock"), is_VRef(bi))
+    else:
+        sec = c.get("_section", n)
+        base = c.isinst(n, "ByteInterval")
+    if level == "section":
+        return z3.And(base, sec == VRef(owner))
+    mod = c.get("_module", ref(sec))
+    if level == "module":
+        return z3.And(base, is_VRef(sec), mod == VRef(owner))
+    ir = c.get("_ir", ref(mod))
+    return z3.And(base, is_VRef(sec), is_VRef(mod), ir == VRef(owner))
